@@ -3,6 +3,7 @@ import Snel.Model.ColumnBlock
 import Snel.Model.Value
 import Snel.Model.ReturnProjection
 import Snel.Model.F64Parse
+import Snel.Model.MemRows
 open Snel Snel.Proto Snel.ColumnBlock Snel.Value
 
 /-! Line protocol of the C07 streams. Tokens are separated by blanks, sections by `|`.
@@ -271,6 +272,51 @@ def projectAnswer (secs0 : List (List String)) : String :=
      | _, _ => "bad-op")
   | _ => "bad-op"
 
+/-- `memrows <ncols> <col…> <ctx filter | *> <nev> (<ctx> <type> <ts> <id> <npay> (<name> <scalar>)*)*` -/
+def parseEvents : Nat → List String → Option (List MemRows.Ev × List String)
+  | 0, rest => some ([], rest)
+  | n + 1, ctx :: ty :: ts :: id :: np :: rest => do
+    let ctx ← unhex ctx
+    let ty ← unhex ty
+    let ts ← ts.toNat?
+    let id ← id.toNat?
+    let np ← np.toNat?
+    if rest.length < 2 * np then none else
+    let rec pay : Nat → List String → Option (List (Bytes × Scalar))
+      | 0, _ => some []
+      | k + 1, a :: b :: r => do
+        let a ← unhex a
+        let b ← parseScalar b
+        let tl ← pay k r
+        some ((a, b) :: tl)
+      | _, _ => none
+    let payload ← pay np rest
+    let (evs, rest') ← parseEvents n (rest.drop (2 * np))
+    some (⟨ctx, ty, ts, id, payload⟩ :: evs, rest')
+  | _, _ => none
+
+def memrowsAnswer (args : List String) : String :=
+  match args with
+  | nc :: rest =>
+    (match nc.toNat? with
+     | some nc =>
+       (match (rest.take nc).mapM unhex, rest.drop nc with
+        | some cols, filt :: nev :: evToks =>
+          (match nev.toNat?, (if filt = "*" then some none else (unhex filt).map some) with
+           | some nev, some filt =>
+             (match parseEvents nev evToks with
+              | some (evs, []) =>
+                if cols.length ≠ nc then "bad-op" else
+                let keep : MemRows.Ev → Bool := fun e => match filt with | none => true | some c => e.ctx == c
+                let rows := MemRows.memRows cols keep evs
+                if rows.isEmpty then "-" else
+                " ; ".intercalate (rows.map fun r => " ".intercalate (r.map showScalar))
+              | _ => "bad-op")
+           | _, _ => "bad-op")
+        | _, _ => "bad-op")
+     | none => "bad-op")
+  | _ => "bad-op"
+
 def answer (line : String) : String :=
   match splitSections (words line) with
   | ("block" :: phys :: vals) :: tabs => blockAnswer phys vals tabs.flatten
@@ -278,6 +324,7 @@ def answer (line : String) : String :=
   | ["scalar", j] :: tabs => scalarAnswer j tabs.flatten
   | ("flush" :: args) :: tabs => flushAnswer args tabs.flatten
   | ("project" :: inp) :: rest => projectAnswer (inp :: rest)
+  | ("memrows" :: args) :: [] => memrowsAnswer args
   | ["f64parse", h] :: [] =>
     (match unhex h with
      | some b => (match Snel.F64Parse.parseF64 b with | some bits => hex16 bits | none => "x")
